@@ -3,6 +3,7 @@ package sym
 import (
 	"fmt"
 	"go/types"
+	"strings"
 
 	"gosym/smt"
 
@@ -50,6 +51,17 @@ func (p *Path) readAll(r Value, site ssa.Instruction) StrV {
 			return st.S
 		}
 	case PtrV:
+		if n, ok := types.Unalias(derefType(iv.T)).(*types.Named); ok && strings.HasPrefix(n.Obj().Name(), "verifReader") {
+			// harness streaming reader {s string; off int}: the rest of s
+			sv := p.load(x, site).(StructV)
+			content := sv.F[0].(StrV)
+			off := sv.F[1].(IntV)
+			if c, ok := off.T.Int64(); ok && c == 0 {
+				p.store(x, StructV{F: []Value{content, IntV{T: content.LenTerm(), Small: true}}}, site)
+				return content
+			}
+			return StrV{}
+		}
 		if typeFullName(derefType(iv.T)) == "bytes.Buffer" {
 			sv := p.load(x, site).(StructV)
 			s := p.bytesAsStr(sv.F[0])
@@ -188,6 +200,66 @@ func (e *Engine) registerJSON() {
 		}
 		return TupleV{E: []Value{IntV{T: data.LenTerm(), Small: true}, IfaceV{}}}
 	}
+	I["io.CopyBuffer"] = func(p *Path, a []Value, site ssa.Instruction) Value {
+		// the scratch buffer is written (by src.Read) unless the copy is delegated
+		// (WriterTo / ReaderFrom) or there is nothing to read
+		delegated := true
+		var arr *Object
+		if sl, ok := a[2].(SliceV); ok && sl.Arr != nil {
+			arr = sl.Arr
+			delegated = false
+			if iv, ok := a[1].(IfaceV); ok && iv.T != nil {
+				if _, native := iv.V.(*NativeObj); native || p.lookupMethod(iv.T, nil, "WriteTo") != nil {
+					delegated = true
+				}
+			}
+			if iv, ok := a[0].(IfaceV); ok && iv.T != nil {
+				if p.lookupMethod(iv.T, nil, "ReadFrom") != nil {
+					delegated = true
+				}
+			}
+		}
+		data := p.readAll(a[1], site)
+		if !delegated && p.branch(smt.Gt(data.LenTerm(), smt.Int(0))) {
+			p.noteWrite(arr, site)
+		}
+		r := p.invokeByName(a[0], "Write", []Value{BytesV{S: data}}, site)
+		if tv, ok := r.(TupleV); ok {
+			if e, _ := tv.E[1].(IfaceV); e.T != nil {
+				return TupleV{E: []Value{mkInt(0), e}}
+			}
+		}
+		return TupleV{E: []Value{IntV{T: data.LenTerm(), Small: true}, IfaceV{}}}
+	}
+	I["(*sync.Pool).Get"] = func(p *Path, a []Value, site ssa.Instruction) Value {
+		pv := a[0].(PtrV)
+		sv := p.load(pv, site).(StructV)
+		st := pv.Type.(*types.Pointer).Elem().Underlying().(*types.Struct)
+		for i := 0; i < st.NumFields(); i++ {
+			if st.Field(i).Name() == "New" {
+				fv, ok := sv.F[i].(FuncV)
+				if !ok {
+					return IfaceV{}
+				}
+				// the object may as well be one another goroutine has put back: what is
+				// checked is that nothing uses it after this request puts it back
+				return p.callValue(fv, nil, site)
+			}
+		}
+		p.unsupported("sync.Pool without New field")
+		return nil
+	}
+	I["(*sync.Pool).Put"] = func(p *Path, a []Value, site ssa.Instruction) Value {
+		if iv, ok := a[1].(IfaceV); ok {
+			if pv, ok := iv.V.(PtrV); ok && pv.Obj != nil {
+				if p.released == nil {
+					p.released = map[*Object]bool{}
+				}
+				p.released[pv.Obj] = true
+			}
+		}
+		return nil
+	}
 	I["io.WriteString"] = func(p *Path, a []Value, site ssa.Instruction) Value {
 		return p.invokeByName(a[0], "Write", []Value{BytesV{S: a[1].(StrV)}}, site)
 	}
@@ -227,7 +299,8 @@ func (e *Engine) registerJSON() {
 		return TupleV{E: []Value{mkInt(1), IfaceV{}}}
 	}
 	I["(*bytes.Buffer).Bytes"] = func(p *Path, a []Value, site ssa.Instruction) Value {
-		return BytesV{S: bufContent(p, a[0], site)}
+		pv, _ := a[0].(PtrV)
+		return BytesV{S: bufContent(p, a[0], site), Alias: pv.Obj}
 	}
 	I["(*bytes.Buffer).String"] = func(p *Path, a []Value, site ssa.Instruction) Value {
 		if a[0].(PtrV).Obj == nil {
@@ -442,12 +515,12 @@ func (e *Engine) registerJSON() {
 		}
 		p.assert(smt.Or(ks...))
 		if bits == 32 {
-			p.assert(smt.And(smt.Ge(j.SymI, smt.Int(-(1 << 31))), smt.Lt(j.SymI, smt.Int(1<<31))))
+			p.assert(smt.And(smt.Ge(j.SymI, smt.Int(-(1<<31))), smt.Lt(j.SymI, smt.Int(1<<31))))
 		}
 		if bits == -32 {
 			// a number valid for `format: float`: representable in single precision
 			j.F32 = true
-			p.assert(smt.And(smt.Gt(j.SymI, smt.Int(-(1 << 24))), smt.Lt(j.SymI, smt.Int(1<<24))))
+			p.assert(smt.And(smt.Gt(j.SymI, smt.Int(-(1<<24))), smt.Lt(j.SymI, smt.Int(1<<24))))
 		}
 		return r
 	}
